@@ -51,6 +51,7 @@ class ValueGen:
         self.dyn_cats = []  # [(category, qt)] requested by the registrar client during the run
         self.swept = False
         self.swept_ro = False
+        self.bursted = False
         self.dyn_units = cfg.get("dyn_units", [])  # units a plugin registers at some point of the run
         self.reg_forms = cfg.get("reg_forms")
         self.legacy = W.legacy_spellings(info) if cfg["world"] == "W-POSC" else []
@@ -289,8 +290,13 @@ class ValueGen:
             self.i += 1
             return op
         rng = self.rng
-        if getattr(self, "plan", None) and rng.random() < 0.6:
+        if getattr(self, "plan", None) and (getattr(self, "plan_sticky", False) or rng.random() < 0.6):
             op = self.plan.pop(0)
+            if not self.plan:
+                self.plan_sticky = False
+            for a in list(op["a"]) + [sp.get("x") for sp in op.get("x", []) if isinstance(sp, dict)] + [sp.get("y") for sp in op.get("x", []) if isinstance(sp, dict)]:
+                if isinstance(a, dict) and isinstance(a.get("ref"), str) and a["ref"].startswith("PLANREL"):
+                    a["ref"] = self.plan_rel_base + int(a["ref"][7:])
             for a in op["a"]:
                 if isinstance(a, dict) and a.get("ref") == "PLAN0":
                     a["ref"] = self.plan_base
@@ -560,6 +566,10 @@ class ValueGen:
         rng = self.rng
         b = self.qt()
         u, c = self.unit_of(b), self.cat_of(b)
+        if self.cfg.get("burst") and not self.bursted and self.requests and self.n > 4 and rng.random() < 0.15:
+            # a long-running session: hundreds of distinct requests between two equal ones
+            self.bursted = True
+            return self.op("mk.q.burst", "py", "request_burst", [self.cfg["burst"], "burst %d" % self.n])
         form = rng.choice(
             ["u", "u", "uc", "uc", "ucc", "nonec", "list1", "list", "ctor", "derived", "derived", "twin", "twin", "empty", "unknown", "unknown_c", "area", "legacy", "reuse"]
         )
@@ -750,6 +760,41 @@ class ValueGen:
             # the commuted product: same composing map in another order (a different quantity)
             self.plan = [dict(self.op("ar.obj.mul", "py", "mul", [ref(y[0]), ref(x[0])]), c="calculator")]
         return self.tag_incompat(o, x, y, opn)
+
+    def text_twin(self, sim):
+        """A derived value whose unit caption coincides with the symbol of a simple unit of ANOTHER
+        quantity type ((m)*(m) reads 'm2' like the area unit): build both, then order / add them."""
+        rng = self.rng
+        u, _ = _barril()
+        if getattr(self, "plan", None):
+            return None
+        xs = sim.live(lambda v: isinstance(v, u.Scalar) and not isinstance(v, u.Array) and M.is_simple_known(v))
+        rng.shuffle(xs)
+        for x in xs[:6]:
+            un = x[1].GetUnit()
+            for text, build in ((un + "2", "mul"), (un + "3", "mul3")):
+                if M.unit_type(text) is None or M.unit_type(text) == x[1].GetQuantityType():
+                    continue
+                base = self.i
+                steps = [self.op("ar.obj.mul", "py", "mul", [ref(x[0]), ref(x[0])])]
+                if build == "mul3":
+                    steps.append(self.op("ar.obj.mul", "py", "mul", [{"ref": "PLANREL0"}, ref(x[0])]))
+                steps.append(self.op("mk.Scalar.vu", "Scalar", "()", [self.value(), text]))
+                opn = rng.choice(RELOPS + ["add", "sub"])
+                last_derived = len(steps) - 2
+                cmp_op = self.op(("cmp." if opn in RELOPS else "ar.obj.") + opn, "py", opn, [{"ref": "PLANREL%d" % last_derived}, {"ref": "PLANREL%d" % (len(steps) - 1)}])
+                cmp_op["f"] = "F1.incompatible"
+                cmp_op["k"] = "flt.incompatible." + cmp_op["k"]
+                cmp_op["x"] = [{"o": "reject", "p": "C05", "id": "C05.loud", "why": "pair", "x": {"ref": "PLANREL%d" % last_derived}, "y": {"ref": "PLANREL%d" % (len(steps) - 1)}}]
+                steps.append(cmp_op)
+                for s_ in steps:
+                    s_["c"] = "saboteur"
+                first = steps.pop(0)
+                self.plan_rel_base = base
+                self.plan = steps
+                self.plan_sticky = True
+                return first
+        return None
 
     def tag_incompat(self, op, x, y, opn):
         if opn in ("add", "sub") + tuple(RELOPS) and _same_family(x[1], y[1], opn) and M.incompatible(x[1], y[1]):
@@ -1187,6 +1232,9 @@ class ValueGen:
                 cands = [x for x in self.basis if x[0] != qt_now]
                 if not cands:
                     return None
+                # objects created for the old quantity type cannot be re-created by a successor
+                # process that registers the category with the new one: no restart after this point
+                self.restart_at = []
                 b2 = rng.choice(cands)
                 return self.op("reg.AddCategory.retype", "db", "AddCategory", [c, b2[0]], kw={"override": True})
             b2 = self.basis_for_qt(qt_now)
@@ -1240,6 +1288,10 @@ class ValueGen:
         u, _ = _barril()
         kinds = self.cfg.get("flt_kinds") or ["pair", "convert", "create", "badarg", "unknown"]
         kind = rng.choice(kinds)
+        if kind == "pair" and rng.random() < 0.12:
+            tw = self.text_twin(sim)
+            if tw is not None:
+                return tw
         if kind == "pair":
             x = self.pick(sim, lambda v: isinstance(v, (u.Scalar, u.Array, u.FractionScalar, u.Quantity)) and bool(M.dim_vector(M.quantity_of(v))))
             if x is None:
@@ -1350,7 +1402,7 @@ class ValueGen:
                 if far:
                     fu = rng.choice(far)
             spec = [{"o": "reject", "p": "C05", "id": "C05.loud", "why": "catunit", "category": c, "unit": fu}]
-            form = rng.choice(["Scalar.vuc", "Scalar.cvu", "Scalar.cu", "Array.Vuc", "FixedArray.dcVu", "FractionScalar.cvu", "q.uc", "q.ctor", "q.derived", "db.Convert", "db.Convert.container", "db.CheckCategoryUnit", "db.CheckQuantityTypeUnit", "db.CheckValueForCategory"])
+            form = rng.choice(["Scalar.vuc", "Scalar.cvu", "Scalar.cu", "Array.Vuc", "FixedArray.dcVu", "FractionScalar.cvu", "q.uc", "q.ctor", "q.derived", "q.derived_repeat", "db.Convert", "db.Convert.container", "db.CheckCategoryUnit", "db.CheckQuantityTypeUnit", "db.CheckValueForCategory"])
             v = self.value()
             if form == "Scalar.vuc":
                 o = self.op("mk.Scalar.vuc", "Scalar", "()", [v, fu, c])
@@ -1373,6 +1425,15 @@ class ValueGen:
                 if c2 == c:
                     return None
                 o = self.op("mk.q.derived", "Quantity", "CreateDerived", [{"OD": [[c, {"L": [fu, 1]}], [c2, {"L": [u2, -1]}]]}])
+            elif form == "q.derived_repeat":
+                # the SAME unit symbol twice: valid for the first category, foreign for the second
+                # (through the validating route CreateDerived only: ObtainQuantity with a composing
+                # map / list is the documented unvalidated fast path, see DESIGN 4.C05)
+                c_ok = self.cat_of(b2)
+                if c_ok == c:
+                    return None
+                e1, e2 = rng.choice([(1, -1), (1, 1), (2, -1)])
+                o = self.op("mk.q.derived", "Quantity", "CreateDerived", [{"OD": [[c_ok, {"L": [fu, e1]}], [c, {"L": [fu, e2]}]]}])
             elif form == "db.CheckCategoryUnit":
                 o = self.op("lk.db.CheckCategoryUnit", "db", "CheckCategoryUnit", [c, fu])
             elif form == "db.CheckQuantityTypeUnit":
